@@ -17,6 +17,22 @@ class CompositeBaseToken(BaseToken):
 
     @classmethod
     def get(cls, expression: list, in_cell: Cell):
+        """
+        The token sets of a class share prefixes and every alternative used to parse a shared prefix again, so the
+        parse time grew exponentially with the nesting depth. While one formula is parsed the result depends only on
+        the token class and on the number of lexer tokens that are left, so it is remembered (see AstBuilder.parse).
+        """
+        memo = getattr(in_cell, '_parse_memo', None)
+        if memo is None:
+            return cls._get(expression, in_cell)
+
+        key = (cls, len(expression))
+        if key not in memo:
+            memo[key] = cls._get(expression, in_cell)
+        return memo[key]
+
+    @classmethod
+    def _get(cls, expression: list, in_cell: Cell):
         control_construction_flag = False
         for tokens in cls.get_token_sets():
             new_expression_part = []
